@@ -108,6 +108,7 @@ type SState struct {
 	BadPack      map[string]bool                      `json:"bad_pack,omitempty"`      // packs (by call key) the downstream refuses on every attempt
 	StaleAck     map[string]bool                      `json:"stale_ack,omitempty"`     // "target|collection|shard" -> a pack of an earlier registration was acknowledged after the stream had been registered again
 	MsgCalls     int                                  `json:"msg_calls"`               // running number of drop-message store calls
+	ConnCalls    int                                  `json:"conn_calls"`              // running number of message-queue connection checks
 	Overlap      map[string]bool                      `json:"overlap,omitempty"`       // tasks whose record was being updated by a background transition (failure pause) while an operator request on the same task was in flight
 	SimSecs      float64                              `json:"sim_secs"`
 }
@@ -201,13 +202,36 @@ func (r *RigS) gate(kind string) Gate {
 	}
 }
 
-type simFactoryCreator struct{ mq *SimMQ }
+type simFactoryCreator struct {
+	mq      *SimMQ
+	connErr func(pch string) error
+}
 
 func (c *simFactoryCreator) NewPmsFactory(cfg *config.PulsarConfig) msgstream.Factory {
-	return &SimFactory{MQ: c.mq}
+	return &SimFactory{MQ: c.mq, ConnErr: c.connErr}
 }
 func (c *simFactoryCreator) NewKmsFactory(cfg *config.KafkaConfig) msgstream.Factory {
-	return &SimFactory{MQ: c.mq}
+	return &SimFactory{MQ: c.mq, ConnErr: c.connErr}
+}
+
+// mqConnErr: the connection check of a source channel (made while a collection is being started, under the channel
+// manager's lock, hence not parked) fails for the calls whose running number the script names.
+func (r *RigS) mqConnErr(pch string) error {
+	r.mu.Lock()
+	n := r.st.ConnCalls
+	r.st.ConnCalls++
+	r.mu.Unlock()
+	if r.s.Draining || r.direct {
+		return nil
+	}
+	for _, f := range r.sc.ConnFaults {
+		if f == n {
+			r.s.Stat("fault:mq_conn_err")
+			r.s.Side("mq connection check of %s -> injected error", pch)
+			return fmt.Errorf("sim: connection refused by the message queue (%s)", pch)
+		}
+	}
+	return nil
 }
 
 func RunRigS(t *testing.T, plan *Plan) {
@@ -516,7 +540,7 @@ func (r *RigS) build() {
 		ReplicateID: "cdc-sim",
 		Packer:      msgpacker.PackerConfig{TimerInterval: sc.Knobs.PackTimerMs, MaxCount: sc.Knobs.PackCount},
 	}
-	r.cdc = server.NewMetaCDCForVerif(cfg, r.fac, &simFactoryCreator{mq: r.mq})
+	r.cdc = server.NewMetaCDCForVerif(cfg, r.fac, &simFactoryCreator{mq: r.mq, connErr: r.mqConnErr})
 	r.handler = server.NewCDCHandlerForVerif(r.cdc, cfg)
 }
 
@@ -950,7 +974,7 @@ func (r *RigS) run() {
 	}
 	s.Viol = append(s.Viol, st.Viol...)
 	r.storeFaultsAtStart = s.Stats["fault:store_err_before"] + s.Stats["fault:store_err_after"]
-	r.faultsAtStart = s.Stats["fault:store_err_before"] + s.Stats["fault:store_err_after"] + s.Stats["fault:tq_err"]
+	r.faultsAtStart = r.faultTotal()
 	s.OnRelease = func(c *Call, o Outcome) {
 		if o.Fault != "" && r.opBusy {
 			r.opFaults++
